@@ -21,7 +21,8 @@ ID = 'C08'
 LEVEL = 'model_checking'
 PEER = ['own', 'own-exception', 'stale', 'stale+own', 'other-unit', 'unit-0', 'unit-255', 'other-function', 'nothing']
 REQS = ['read-registers', 'read-coils', 'write-single', 'write-registers', 'mask-write', 'diagnostic',
-        'read-discrete', 'read-input', 'write-coil', 'write-coils', 'read-write-registers', 'diagnostic-0E', 'device-information']
+        'read-discrete', 'read-input', 'write-coil', 'write-coils', 'read-write-registers', 'diagnostic-0E', 'device-information', 'read-max',
+        'custom-unregistered']
 HISTORIES = {'none': (), 'one-ok': ('write-single',), 'one-late': (('read-registers', 'late'),),
              'ok+late': ('write-single', ('read-registers', 'late')),
              'reused': (('@main', 'reuse'),)}      # the main request OBJECT was executed once before (healthy), then edited
@@ -79,10 +80,11 @@ def judge(acc, spec, hname, env, sim, recs, hang):
         # what went out is the request as it stands when execute() is called, under the id the client gave it
         from ref import adu
         sent = adu.parse_one(spec.framing, main['writes'][0]) if main['writes'] else None
-        if sent is None or sent['pdu'] != pdu.encode(main['request']) or (uses_tid and sent['tid'] != main['tid']):
+        want_pdu = pdu.encode(main['request']) if not main['request'].get('custom') else bytes([main['request']['fc']]) + main['request']['body']
+        if sent is None or sent['pdu'] != want_pdu or (uses_tid and sent['tid'] != main['tid']):
             acc.violation('C08/%s/%s/request-frame-not-the-request/%s' % (kind, spec.request, hname), wit,
                           'frame written %s, the request is %s (transaction id %r)'
-                          % (main['writes'][0].hex() if main['writes'] else None, pdu.encode(main['request']).hex(), main['tid']), cfg)
+                          % (main['writes'][0].hex() if main['writes'] else None, want_pdu.hex(), main['tid']), cfg)
         d = clientsim.describe(main['result'])
         own = [f for f in sim.delivered if f.get('what') == 'own' and f['call_pushed'] == recs.index(main)]
         if not own or d[0] != 'response' or d[2] != own[-1]['pdu']:
@@ -148,7 +150,7 @@ def run(tier, seed):
                 coverage=dict(
                     rule='state = execution prefix (history of environment choices) of the real client; transition = one environment decision; '
                          'all executions with <= %d deviations per specification; non-trivial = executions with at least one deviation' % (2 if tier == 'quick' else 3),
-                    bounds='6 client kinds x 13 request types x 4 histories (none, healthy, timed-out-with-late-reply, both) x transaction-id presets {0, 0xFFFE, 0xFFFF} '
+                    bounds='6 client kinds x 15 request types (incl. the longest reply there is, and an application-defined function the device rejects) x 4 histories (none, healthy, timed-out-with-late-reply, both) x transaction-id presets {0, 0xFFFE, 0xFFFF} '
                            'x reply split {whole, after 3 bytes, byte-by-byte%s} x retry_on_invalid; peer menu %r'
                            % (', after 1/5/7/9 bytes' if tier == 'thorough' else '', PEER)),
                 assumptions=['frames count as received during a call when they became readable between its start and its end',
